@@ -330,7 +330,6 @@ step_write!(c11_u64_write_u64, any_pre_u64_k, model_u64, u64);
 //@ bound: any pre-state of 0..=2 words, any i32, field width 1..=64
 step_twoc!(c11_u64_twoc_i32, any_pre_u64_k, model_u64, i32);
 //@ prop: C11
-//@ tier: thorough
 //@ drives: BitSink::write_twoc::<i64> on MemSink<u64>
 //@ bound: any pre-state of 0..=2 words, any i64, field width 1..=64
 step_twoc!(c11_u64_twoc_i64, any_pre_u64_k, model_u64, i64);
@@ -512,7 +511,6 @@ step_write!(c11_u8_write_u64, any_pre_u8_k, model_u8, u64);
 //@ bound: any pre-state of 0..=2 bytes, any i32, field width 1..=64
 step_twoc!(c11_u8_twoc_i32, any_pre_u8_k, model_u8, i32);
 //@ prop: C11
-//@ tier: thorough
 //@ drives: BitSink::write_twoc::<i64> on MemSink<u8>
 //@ bound: any pre-state of 0..=2 bytes, any i64, field width 1..=64
 step_twoc!(c11_u8_twoc_i64, any_pre_u8_k, model_u8, i64);
